@@ -86,6 +86,9 @@ if SYMBOLIC:
         _ss.StateSpace.__init__ = _init
 
         def _dump():
+            from vlib import hx as _hx
+
+            _STATS["symbolic_fail_calls"] = _hx.SYMBOLIC_FAILS[0]
             _STATS["regex_forks"] = rematch.STATS["forks"]
             _STATS["regex_cached"] = rematch.STATS["cached"]
             _STATS["solver_s"] = round(_STATS["solver_s"], 3)
